@@ -14,7 +14,7 @@ for pid in props:
             'quick_cmd': './check %s --tier quick' % pid,
             'thorough_cmd': './check %s --tier thorough' % pid,
             'evidence_file': 'evidence/%s.json' % pid,
-            'replay_cmd_template': './check %s --replay {path}' % pid,
+            **({'replay_cmd_template': './check %s --replay {path}' % pid} if pid in ('C01', 'C02', 'C03') else {}),
             'engine': c.get('engine', 'tlc+harness'),
             'level_claimed': {'category': c['category'], 'text': c['text'], 'design_ref': c['design_ref']},
             'level_note': c['note'],
